@@ -167,7 +167,7 @@ func ruleC19Codec(c *ctx.Ctx, r *core.Reporter) {
 		return
 	}
 	w := squash(nodeString(c, wt.Body))
-	rd := squash(nodeString(c, rh.Body))
+	_ = rh
 	{
 		// order of the three header parts in WriteTo, whatever the buffer handling looks like:
 		// first mention of the magic ≺ big-endian 16-bit length of the payload ≺ payload appended
@@ -202,9 +202,26 @@ func ruleC19Codec(c *ctx.Ctx, r *core.Reporter) {
 		})
 		r.Check(pMagic != token.NoPos && pLen > pMagic && pPayload > pLen && !little, "header:writer", c.Pos(wt.Pos()), "WriteTo emits magic, big-endian uint16 payload length, payload — in this order")
 	}
-	r.Check(strings.Contains(rd, "binary.BigEndian.Uint16(b[1:3])") && strings.Contains(rd, "copy(h.Payload,b[3:])") && strings.Contains(rd, "returnh,size+3"), "header:reader", c.Pos(rh.Pos()), "ReadHint reads the size from bytes 1..2 big-endian, the payload from byte 3 and reports size+3 consumed bytes")
+	r.Check(func() bool {
+		in := firstParamName(rh)
+		for _, m := range findGoPattern(rh.Body, `µsize := int(binary.BigEndian.Uint16(µb[1:3]))`) {
+			if m.Env["µb"] != in {
+				continue
+			}
+			sz := m.Env["µsize"]
+			okCopy, okRet := false, false
+			for _, m2 := range findGoPattern(rh.Body, `copy(µh.Payload, µb[3:])`) {
+				okCopy = okCopy || m2.Env["µb"] == in
+			}
+			for _, m2 := range findGoPattern(rh.Body, `return µh, µs + 3`) {
+				okRet = okRet || m2.Env["µs"] == sz
+			}
+			return okCopy && okRet
+		}
+		return false
+	}(), "header:reader", c.Pos(rh.Pos()), "ReadHint reads the size from bytes 1..2 big-endian, the payload from byte 3 and reports size+3 consumed bytes")
 	r.Check(strings.Contains(w, "iflen(h.Payload)>0xFFFF{panic("), "header:size-fits", c.Pos(wt.Pos()), "a payload that does not fit the 16-bit size field is rejected instead of being truncated")
-	r.Check(strings.Contains(rd, "ifb[0]!=HintMagic{panic(") && strings.Contains(rd, "iflen(b)<size+3{panic("), "header:reader-checks", c.Pos(rh.Pos()), "ReadHint refuses input that does not start with the magic or is shorter than the announced payload")
+	r.Check(hasGoPattern(rh.Body, `if µb[0] != HintMagic { panic(µ_) }`) && hasGoPattern(rh.Body, `if len(µb) < µsize+3 { panic(µ_) }`), "header:reader-checks", c.Pos(rh.Pos()), "ReadHint refuses input that does not start with the magic or is shorter than the announced payload")
 	// flags
 	info := c.Pkg(smPkg).TypesInfo
 	packFlags := map[string]string{} // type -> flag
